@@ -299,9 +299,9 @@ def ack_offset(seq, initial):
     return (seq - initial) % 256
 
 def honest_ack(tr, apdu):
-    """the peer acknowledges only what it received: a segment this side has sent (the last one only after it was sent), or an older one"""
-    off = ack_offset(apdu.apduSeq, tr.initialSequenceNumber)
-    return 1 <= apdu.apduWin <= WINDOW_BOUND and (off >= 128 or tr.initialSequenceNumber + off + (0 if tr.sentAllSegments else 1) < tr.segmentCount)
+    """the receiver grants a window within the range the units unroll (1..WINDOW_BOUND); which segment the ack names is NOT restricted:
+    late copies of acks from an earlier try of the same request (same invoke ID) name segments this try has not sent"""
+    return 1 <= apdu.apduWin <= WINDOW_BOUND
 
 def sender_ack_ok(tr, apdu, old_state, old_initial, old_sent_all, old_retry, to_net, old_data, done_state):
     """effect of a segment-ack on the sending side"""
@@ -313,6 +313,10 @@ def sender_ack_ok(tr, apdu, old_state, old_initial, old_sent_all, old_retry, to_
                 and tr.sentAllSegments == old_sent_all and tr.segmentRetryCount == old_retry)
     if old_sent_all and old_initial + off == tr.segmentCount - 1:
         return tr.state == done_state and len(to_net) == 0            # the ack of the very last segment ends the transfer
+    if old_initial + off + 1 >= tr.segmentCount:
+        # names the last segment (or one beyond) although that has not been sent: a late copy from an earlier try -- nothing moves
+        return (tr.state == old_state and tr.initialSequenceNumber == old_initial and len(to_net) == 0
+                and tr.sentAllSegments == old_sent_all and tr.segmentRetryCount == old_retry)
     # an ack for anything earlier (also a negative ack inside the last window) moves on to the segment after it
     return (tr.state == old_state and tr.initialSequenceNumber == old_initial + off + 1 and tr.segmentRetryCount == 0
             and window_sent(tr, tr.initialSequenceNumber, to_net, old_data)
